@@ -33,6 +33,10 @@ NAN = float("nan")
 # ---------------------------------------------------------------------------
 # recording observers (user extension points of the API)
 # ---------------------------------------------------------------------------
+class InjectedCrash(Exception):
+    """Raised by a recording observer when the harness injects a failure of user code."""
+
+
 class Sink(object):
     """The totally ordered event log of one executor."""
 
@@ -41,6 +45,8 @@ class Sink(object):
         self.seq = 0
         self.envs = {}
         self.idmap = {}
+        self.bombs = {}         # env tag -> callbacks left before an observer of that environment fails
+        self.fired = 0
 
     def next_seq(self):
         self.seq += 1
@@ -53,6 +59,20 @@ class Sink(object):
         if isinstance(event, EventContractDiscontinued):
             return "disc:{}".format(getattr(event.contract, "_symbol", None) or "?")
         return None
+
+    def tick_bomb(self, tag):
+        """Fault injection: the armed observer callback of this environment raises (a crash in user code in
+        the middle of event delivery, at reset or inside a step)."""
+        left = self.bombs.get(tag)
+        if left is None:
+            return
+        left -= 1
+        if left <= 0:
+            self.bombs[tag] = None
+            self.fired += 1
+            self.records.append({"seq": self.next_seq(), "kind": "crash", "env": tag})
+            raise InjectedCrash("injected observer failure")
+        self.bombs[tag] = left
 
     def callback(self, tag, observer, event, expected_cls):
         env = self.envs.get(tag)
@@ -71,6 +91,7 @@ def _mk_callbacks(observer_name, classes):
     def make(cls):
         def cb(self, event):
             self._sink.callback(self._tag, observer_name, event, cls)
+            self._sink.tick_bomb(self._tag)
             self._on_event(event)
         cb.__name__ = "process_" + cls
         return cb
@@ -652,6 +673,11 @@ class EpiSim(object):
                 AbstractContract.now = core.parse_t(op["t"])
                 self.fault("foreign_clock_write")
                 self.sink.records.append({"seq": self.sink.next_seq(), "kind": "clock", "t": core.parse_t(op["t"])})
+            elif name == "arm":
+                # fault: the n-th observer callback of this environment from now on raises (None disarms)
+                self.sink.bombs[op.get("env", 0)] = op.get("n")
+                if op.get("n") is not None:
+                    self.fault("observer_crash_armed")
             elif name == "late_add":
                 # somebody hands the transmitter one more (unobserved, out-of-range) event after the environment was built
                 h = self.handles[op.get("env", 0)]
